@@ -82,7 +82,56 @@ def contracts():
     abstract_lists=('update_schedule','Q'), exit_lemmas=["finite_subset_eq(elems(update_schedule), V)"],
     modifies=['top._sched.update_schedule'], returns=None, property_ids=('C01','C02'), sample=False,
     note="assumes MAMBA_DAG is not set in the environment; random.shuffle = arbitrary permutation; lists Q / Es[u] / update_schedule abstracted by element sets with proved duplicate-freeness"))
+  cs+=heuristic_contracts()
   return cs
+
+# ---------------------------------------------------------------------------------------------- HeuristicTopoPass (Kahn with a priority queue keyed by (branchiness, id))
+FH='pymtl3/passes/mamba/HeuristicTopoPass.py'
+def hh_ind_dec(ex,st):
+  from pyvc.symcoll import UNID
+  u=UNID(as_int(st.env['u'])); v=to_obj(st.env['v'],st); R=st.env['g_rem'].arr; old=z3.Select(R,v)
+  st.env['g_rem']=GArr(z3.Store(R,v,z3.Store(old,u,False)))
+  for f in card_del(old,u): st.pc.append(f)
+def hh_sched_append(ex,st):
+  from pyvc.symcoll import UNID
+  u=UNID(as_int(st.env['u'])); sch=st.heap[(st.env['update_schedule'].id,'arr')]
+  st.env['g_pos']=GArr(z3.Store(st.env['g_pos'].arr,u,CARD(sch)-1))
+
+def heuristic_contracts():
+  from pyvc.symexec import TupleT, BoolT
+  TopH=CompT('Component',{'_dag.final_upblks':SetOf(Blk),'_dag.all_constraints':SetOf(PairOf(Blk,Blk)),'get_all_update_ff()':SetOf(Blk),'_sched.present':IntT(),'_dsl.all_update_ff':SetOf(Blk),
+                          '_dag.genblks':SetOf(Blk),'get_all_update_blocks()':SetOf(Blk)})
+  QIN ="forall(p, implies(p in elems(Q), is_int_pair(p) and unid(snd(p)) in V and idof(unid(snd(p))) == snd(p) and fst(p) == getv(branchiness, unid(snd(p))) and not (unid(snd(p)) in elems(update_schedule)) and getv(InD, unid(snd(p))) == 0))"
+  QOUT="forall(b, implies(b in V and not (b in elems(update_schedule)) and getv(InD, b) == 0, (getv(branchiness, b), idof(b)) in elems(Q)))"
+  BR="forall(b, implies(b in V, b in dom(branchiness)))"
+  COMMON=[ "subset(elems(update_schedule), V)", "dom(InD) == V and dom(Es) == V", IND, ES, QIN, BR, "forall(a, b, implies((a, b) in E, a in V and b in V))" ]
+  W=COMMON+[ "forall(a, b, (a in grem(b)) == (((a, b) in E) and not (a in elems(update_schedule))))", QOUT,
+      "forall(a, b, implies(((a, b) in E) and (b in elems(update_schedule)), (a in elems(update_schedule)) and gpos(a) < gpos(b)))",
+      "forall(a, implies(a in elems(update_schedule), 0 <= gpos(a) and gpos(a) < card(elems(update_schedule))))", "card(elems(update_schedule)) >= 0" ]
+  INNER=COMMON+[ "forall(a, b, (a in grem(b)) == (((a, b) in E) and ((not (a in elems(update_schedule))) or (a == unid(u) and not (b in seen)))))", QOUT,
+      "unid(u) in elems(update_schedule) and unid(u) in V and idof(unid(u)) == u" ]
+  FILL=[ "forall(p, implies(p in elems(Q), is_int_pair(p) and unid(snd(p)) in seen and unid(snd(p)) in V and idof(unid(snd(p))) == snd(p) and fst(p) == getv(branchiness, unid(snd(p))) and getv(InD, unid(snd(p))) == 0))",
+         "forall(b, implies(b in seen and getv(InD, b) == 0, (getv(branchiness, b), idof(b)) in elems(Q)))" ]
+  return [Contract(f'{FH}::HeuristicTopoPass.schedule_intra_cycle', view={'self':ObjK('Pass'),'top':TopH},
+    cases=[Case('dag', requires="forall(b, implies(b in top._dag.final_upblks and not (b in top.get_all_update_ff()), b in top._dag.genblks or b in top.get_all_update_blocks()))",
+      raises_or_ensures=True, raises='Exception', raise_only_if='card(elems(update_schedule)) != card(V)',
+      ensures="elems(top._sched.update_schedule) == old(top._dag.final_upblks) - old(top.get_all_update_ff()) and "
+              "forall(a, b, implies(((a, b) in old(top._dag.all_constraints)) and (a in elems(top._sched.update_schedule)) and (b in elems(top._sched.update_schedule)), gpos(a) < gpos(b))) and "
+              "forall(a, implies(a in elems(top._sched.update_schedule), 0 <= gpos(a) and gpos(a) < card(elems(top._sched.update_schedule))))",
+      source="C01/C02: the heuristic-topological scheduler too places every combinational block exactly once with every constraint (u,v) honoured, or raises")],
+    loops={1:Loop(invariant=["dom(InD) == V and dom(Es) == V",
+                             "forall(a, b, ((a, b) in E) == (((a, b) in seen) and a in V and b in V))", EDGES, IND, ES],
+                  modifies=['InD','Es','E'],ghost=['g_rem']),
+           2:Loop(invariant=["forall(b, (b in dom(branchiness)) == (b in top._dag.genblks or b in seen))"], modifies=['branchiness'], ghost=[]),
+           3:Loop(invariant=FILL, modifies=['Q'], ghost=[]),
+           4:Loop(invariant=W, modifies=['Q','update_schedule','InD'],ghost=['g_rem','g_pos']),
+           5:Loop(invariant=INNER, modifies=['Q','InD'],ghost=['g_rem'])},
+    ghost_init=ghost_init, ghost_hooks={'InD[v] += 1':h_ind_inc,'InD[v] -= 1':hh_ind_dec,'update_schedule.append(id_v[u])':hh_sched_append},
+    abstract_lists=('update_schedule',), exit_lemmas=["finite_subset_eq(elems(update_schedule), V)"],
+    opaque_methods={'CountBranchesLoops':ObjK('any'),'get_update_block_host_component':ObjK('any'),'get_update_block_info':ObjK('any'),'enter':TupleT(IntT(),BoolT())},
+    modifies=['top._sched.update_schedule'], returns=None, property_ids=('C01','C02'), sample=False,
+    note="the branchiness computation (CountBranchesLoops.enter on the block's AST, get_update_block_host_component / get_update_block_info) is opaque: assumed pure and not to raise; "
+         "PriorityQueue.get() = removal of an arbitrary queued element; id() injective on live objects; update_schedule abstracted by its element set with proved duplicate-freeness")]
 
 from pyvc.symexec import SpecType
 class SetListT(SpecType):
@@ -94,4 +143,5 @@ class SetListT(SpecType):
 def register(reg):
   reg.declare_class('UpblkCyclicError',None,bases=('Exception',),exception=True)
   reg.declare_class('SimpleSchedulePass',F)
+  reg.declare_class('HeuristicTopoPass',FH)
   for c in contracts(): reg.add(c)
